@@ -1,6 +1,7 @@
 import LcModel.Prove.LemmasC04
 import LcModel.Sync.LemmasFork
 import LcModel.Index.LemmasC04
+import LcModel.Quorum.LemmasLatest
 /-!
 # C04 — after a fork switch the index reflects only the new chain
 
@@ -360,4 +361,22 @@ theorem rollback_skips_lower_scripts :
 
 end index
 
+/-! ## the known finding `filters-of-a-lagging-peer-accepted`, in the model of the agreement -/
+
+/-- Three proven peers; the chain was reorganised after the second block behind the finalized check
+point.  Peer 1 has followed (filter hashes `[1, 2, 7, 8]`, the NEW branch, on which the stored tip
+is), peers 2 and 3 still hold the hashes of the abandoned branch `[1, 2, 3, 4]`.  With the quorum
+2 of 3 `get_latest_block_filter_hashes` returns the OLD branch's hashes: block filters of the
+abandoned branch are "authentic" for the heights 3 and 4, the new branch's are refused.  The
+premise of `C06.latest_honest_majority` (fewer than `required` peers deviate from the chain) fails
+for the chain of the stored tip: two peers deviate — honestly, they lag. -/
+theorem lagging_majority_decides_the_filter_hashes :
+    let data : List (Nat × List Nat) := [(1, [1, 2, 7, 8]), (2, [1, 2, 3, 4]), (3, [1, 2, 3, 4])]
+    let newBranch : List Nat := [1, 2, 7, 8]
+    Quorum.latestAgreed? 2 data [1, 2, 3, 4] = some [1, 2, 3, 4] ∧
+    Quorum.latestAgreed? 2 data [1, 2, 7, 8] = none ∧
+    (data.filter (fun p => decide (¬ p.2 <+: newBranch))).length = 2 := by
+  decide
+
 end C04
+
